@@ -13,7 +13,7 @@ CorpusDir == IOEnv.VERIF_CORPUS
 Corpus(name) == ndJsonDeserialize(CorpusDir \o "/" \o name \o ".ndjson")
 PV19 == Corpus("PV19")
 PD19 == Corpus("PD19")
-BadText == <<"empty", "truncated", "garbage", "notjson", "pynan", "ffpad", "nbsppad", "nelpad", "lspad", "twodocs">>
+BadText == <<"empty", "truncated", "garbage", "notjson", "pynan", "ffpad", "nbsppad", "nelpad", "lspad", "twodocs", "surrogate">>
 
 VARIABLE sc
 vars == <<sc, entry, argValue, argData, argSer, argDeser, pyc, ser, deser, texts, serCalls, nativeOut, result>>
@@ -22,7 +22,7 @@ Txt(C, i) == IF i > 0 THEN [valid |-> TRUE, v |-> C[i]] ELSE [valid |-> FALSE, c
 \* v: index into PV19 or a negative bad-text class; d: 0 omitted, index into PD19, or negative bad class
 Scenarios ==
        [e : {"apply"}, v : (1..Len(PV19)) \cup {-5}, d : (0..Len(PD19)) \cup {-5}, s : {"omitted", "custom"}, ds : {"omitted", "custom"}]
-  \cup [e : {"apply_serialized"}, v : (1..Len(PV19)) \cup {-1, -2, -3, -4, -6, -7, -8, -9, -10}, d : (0..Len(PD19)) \cup {-1, -2, -3, -4, -6, -7, -8, -9, -10}, s : {"omitted"}, ds : {"omitted", "custom"}]
+  \cup [e : {"apply_serialized"}, v : (1..Len(PV19)) \cup {-1, -2, -3, -4, -6, -7, -8, -9, -10, -11}, d : (0..Len(PD19)) \cup {-1, -2, -3, -4, -6, -7, -8, -9, -10, -11}, s : {"omitted"}, ds : {"omitted", "custom"}]
 
 Init == /\ sc \in Scenarios
         /\ PyInit(sc.e, Txt(PV19, sc.v),
